@@ -67,7 +67,18 @@ def loop_domain(body, header, lb):
             truth = si[2][stay[0]][0]
             r = util.norm_rel(si[1], truth)
             if r[0] in ('lt', 'le'):
-                return dict(kind='while', start=None, end=r[2], inclusive=(r[0] == 'le'), var=r[1], next=None)
+                var = r[1]
+                start = None
+                v = peel(var, calls=False)
+                # counter idiom: var = phi(init | var + 1)
+                if v[0] == 'phi' and len(v[1]) == 2:
+                    step = [x for x in v[1] if x[0] == 'bin' and x[1] in ('Add', 'AddUnchecked') and mir.int_value(x[3]) == 1 and x[2][0] == 'cyc']
+                    init = [x for x in v[1] if x not in step]
+                    if len(step) == 1 and len(init) == 1:
+                        start = init[0]
+                if start is None:
+                    raise Unrecognised('loop-domain', 'while-loop variable is not a unit-step counter: %s' % show(var))
+                return dict(kind='while', start=start, end=r[2], inclusive=(r[0] == 'le'), var=var, next=None)
     raise Unrecognised('loop-domain', 'driver loop header bb%d is neither a range for-loop nor a while h</<= B' % header)
 
 
